@@ -52,6 +52,7 @@ type Fault struct {
 // Msg is one Diameter message seen by the tap.
 type Msg struct {
 	Conn      int    `json:"conn"`
+	ConnOrd   int    `json:"conn_ord"` // ordinal of the connection among the dials of its task (schedule-independent identity)
 	Peer      string `json:"peer"`
 	Task      int    `json:"task"`
 	Op        int    `json:"op"`
@@ -271,6 +272,7 @@ func (l *Listener) Addr() net.Addr { return addr{l.a} }
 
 type pair struct {
 	id        int
+	ord       int
 	peer      string
 	task, op  int
 	key       uint64
@@ -355,7 +357,7 @@ func (n *Net) Dial(network, address string) (net.Conn, error) {
 	}
 	lat := n.latency(key, 0)
 	if dialFault != nil || l == nil {
-		p := &pair{id: len(n.pairs), peer: peer, task: task, op: op, key: key, openedAt: rt.Now()}
+		p := &pair{id: len(n.pairs), ord: ord, peer: peer, task: task, op: op, key: key, openedAt: rt.Now()}
 		if dialFault != nil {
 			p.dialFault = dialFault.Kind
 		}
@@ -367,7 +369,7 @@ func (n *Net) Dial(network, address string) (net.Conn, error) {
 		time.Sleep(time.Duration(lat + extra))
 		return nil, fmt.Errorf("dial tcp %s: connect: connection refused", address)
 	}
-	p := &pair{id: len(n.pairs), peer: peer, task: task, op: op, key: key, openedAt: rt.Now()}
+	p := &pair{id: len(n.pairs), ord: ord, peer: peer, task: task, op: op, key: key, openedAt: rt.Now()}
 	p.c = &end{p: p, isClient: true, notify: make(chan struct{}, 1)}
 	p.s = &end{p: p, isClient: false, notify: make(chan struct{}, 1)}
 	p.c.other, p.s.other = p.s, p.c
@@ -526,7 +528,7 @@ func (e *end) Write(b []byte) (int, error) {
 func (e *end) record(raw []byte) *Msg {
 	n := e.p.net()
 	m := &Msg{
-		Conn: e.p.id, Peer: e.p.peer, Task: e.p.task, Op: e.p.op,
+		Conn: e.p.id, ConnOrd: e.p.ord, Peer: e.p.peer, Task: e.p.task, Op: e.p.op,
 		ToClient: !e.isClient,
 		Cmd:      uint32(raw[5])<<16 | uint32(raw[6])<<8 | uint32(raw[7]),
 		Request:  raw[4]&0x80 != 0,
